@@ -132,6 +132,17 @@ def subscribe(sid, iid, maj, egid, ttl=3, counter=0, o1=(), o2=()):
     return entry(6, sid, iid, maj, ttl, (counter << 16) | egid, o1, o2)
 
 
+def with_riders(entries, k):
+    """a peer that is server and client at once bundles what it has to say in both roles: the answer to a subscription of ours
+    (SubscribeAck, or Nack = ttl 0) rides along in front of / behind the entries a check sends - by themselves such entries
+    are only logged by the receiving stack.  k rotates the arrangement; messages without entries stay as they are"""
+    if not entries or k % 4 == 0:
+        return list(entries)
+    nack = entry(0x07, 0x7E57, 1, 1, 0, 1)
+    ack = entry(0x07, 0x7E57, 1, 1, 3, 1)
+    return {1: [nack] + list(entries), 2: [ack] + list(entries), 3: [nack] + list(entries) + [ack]}[k % 4]
+
+
 def sd_bytes(entries, session, reboot=True, unicast=True, extra_flags=0, share=False):
     """lay out entries with their options (no sharing unless asked for: then a run that was laid out before is referenced
     again, which messages with many entries need - option indexes are one byte wide) and encode a full SD datagram"""
